@@ -16,19 +16,28 @@ from __future__ import annotations
 import itertools
 import re
 
-from .. import common, docgen, rtfread
+from .. import common, docgen, laygen, rtfread
 from ..common import sub_rng
 
 RULE = ("unit: metadata vectors (total 1..4, group/subline flags, nrow, additional, new_page) — exhaustive for "
         "small n, random above; docs: tagged tables under plain/page_by/subline_by pagination with 1..3-line rows "
-        "well inside a band; non-trivial = at least 2 pages and at least one break caused by overflow or by a "
+        "well inside a band — (i) equal column widths, one font, key columns first; (ii) `w/…` general geometry: "
+        "col_rel_width vectors (int / float / equal, over the frame's columns or over the displayed columns only), "
+        "custom table width, font and font size per table / per column / per cell, key columns first / last / between "
+        "the data columns, every grouping option (page_by 0..2 levels × new_page × pageby_row, subline_by 0..2 levels, "
+        "both) — so that the set of columns leaving the table, and whether a page_by column STAYS in it, runs over all "
+        "cases; every displayed cell (tags, long texts, kept key values) is ≥ 0.2 line inside a band at the width, "
+        "font and size of its OWN column, long texts in any number of columns, also long 1-line texts; "
+        "non-trivial = at least 2 pages and at least one break caused by overflow or by a "
         "grouping rule; distinct by (strategy, nrow, additional, page vector)")
 TRUSTED = [
     "Lean 4.33 kernel; axioms ⊆ {propext, Classical.choice, Quot.sound} (audited per theorem on every run)",
     "Lean compiler for the driver executable (compiled evaluation agrees with kernel reduction)",
     "harness/rtfread.py (Python RTF reader used to observe the page of each tagged row)",
-    "row costs fed to the oracle are computed by the harness from the document: 1 line per short cell, k lines "
-    "for texts measured with get_string_width to lie well inside the k-line band, +1 per rendered group heading",
+    "row costs fed to the oracle are computed by the harness from the document: the height of a row is the largest "
+    "int(width / column width) + 1 over its displayed cells, each text measured with get_string_width at the font and "
+    "size of its own column against the width of its own column (col_rel_width share of the table width) and "
+    "generated to lie well inside that band; + the heading lines of the groups the row starts",
 ]
 MANIFEST = dict(
     text="Lean theorems over the model of _assign_pages + group-change detection (all row lists, nrow, "
@@ -38,8 +47,10 @@ MANIFEST = dict(
          "documents whose observed pagination is judged by the Lean-defined oracle checkBreaks; in addition the "
          "loop of _assign_pages is translated from its Python source on every run (harness/pytranslate.py) and proved "
          "equal to the model for all inputs (Props/C04py.lean).",
-    note="Row costs in the document-level oracle come from the harness (texts well inside a line band, measured "
-         "with the real get_string_width); Pillow, polars and pydantic are parameters.",
+    note="Row costs in the document-level oracle come from the harness (texts well inside a line band of their own "
+         "column — its width, font and size —, measured with the real get_string_width; unequal col_rel_width, "
+         "per-column / per-cell fonts and sizes, page_by columns kept in or removed from the table, key columns at any "
+         "position); Pillow, polars and pydantic are parameters.",
     technique="Lean 4 proof (induction over rows) + source-to-Lean translation of _assign_pages with an equality theorem + "
               "differential correspondence model/implementation",
     design="7/C04",
@@ -302,6 +313,304 @@ def gen_doc(rng, tier):
     return dict(spec=spec, exp=exp)
 
 
+# ------------------------------------------------------------------ observation level, general table geometry
+#
+# The documents of `gen_doc` have equal column widths, one font, key columns first.  `gen_doc_w` drops all three
+# restrictions: every displayed column has its OWN width (col_rel_width vectors over all columns or over the displayed
+# columns only, custom table width), its own font and font size (scalar / per column / per cell), the key columns stand
+# anywhere in the frame, and the grouping options run over the whole product (page_by levels × new_page × pageby_row ×
+# subline_by levels) that decides which columns leave the table.  Every displayed cell — the tags, the long texts AND
+# the values of a page_by column that stays in the table — is placed well inside a line band at the width, font and
+# size of its own column, so the height of every row is unambiguous (the property's quantifier).
+
+GROUPINGS = [  # (label, page_by levels, new_page, pageby_row, subline?)
+    ("plain", 0, False, "column", False),
+    ("page_by", (1, 2), False, "column", False),
+    ("page_by_first", (1, 2), False, "first_row", False),
+    ("page_by_np", (1, 2), True, "column", False),            # the page_by columns STAY in the table
+    ("page_by_np_first", (1, 2), True, "first_row", False),
+    ("subline", 0, False, "column", True),
+    ("subline_page_by", (1,), False, "column", True),
+    ("subline_page_by_first", (1,), False, "first_row", True),
+    ("subline_page_by_np", (1,), True, "column", True),       # subline column leaves, page_by column stays
+    ("subline_page_by_np_first", (1,), True, "first_row", True),
+]
+_GROUPING_WEIGHTS = [2, 2, 1, 6, 2, 2, 1, 1, 3, 1]
+SIZES = [6, 7.5, 8, 9, 10, 12, 14]
+_WORDS = ["lorem", "ipsum", "dolor", "sit", "amet", "elit", "sed", "do"]
+
+
+def well_inside(q: float) -> bool:
+    """q = text width / column width lies ≥ 0.2 line away from every band edge"""
+    k = int(q)
+    return q <= 0.8 if k == 0 else 0.2 <= q - k <= 0.8
+
+
+def place(rng, base: str, cw: float, font, size, k=None, fill="words"):
+    """a text starting with `base` that is well inside the k-line band of ITS column (width cw, font, size);
+    k=None: leave `base` as it is when it already is well inside a band, else grow it into the next band.
+    Returns None when no such text exists at this width (column too narrow for the glyph steps)."""
+    def q(s):
+        return laygen.measure(s, font, size) / cw
+
+    q0 = q(base)
+    if k is None:
+        if well_inside(q0):
+            return base
+        k = int(q0) + 1 if q0 - int(q0) < 0.2 else int(q0) + 2
+    while q0 > k - 0.25:           # the base alone is beyond the requested band: the next band that can hold it
+        k += 1
+    lo, hi = (0.3 if k == 1 else k - 1 + 0.25), k - 0.25
+    s = base
+    if fill == "wide":
+        s += " "
+        while q(s) < lo:
+            s += rng.choice("WMWM@%")
+    while q(s) < lo:
+        s += " " + rng.choice(_WORDS)
+    while q(s) > hi and len(s) > len(base):
+        s = s[:-1]
+    s = s.rstrip() if len(s.rstrip()) >= len(base) else s
+    for _ in range(200):
+        if q(s) >= lo:
+            break
+        s += "i"
+    return s if lo <= q(s) <= hi and well_inside(q(s)) else None
+
+
+def _gen_doc_w_once(rng):
+    label, levels, new_page, pageby_row, has_sub = rng.choices(GROUPINGS, weights=_GROUPING_WEIGHTS)[0]
+    n = rng.choice([0, 1, 2, 3]) if rng.random() < 0.08 else rng.randint(4, 45)
+    ndata = rng.randint(2, 4)
+    cols = [f"c{j}" for j in range(ndata)]
+    page_by = [f"g{l}" for l in range(rng.choice(levels))] if levels else None
+    subline_by = (["s0", "s1"] if rng.random() < 0.35 else ["s0"]) if has_sub else None
+    keycols = (subline_by or []) + (page_by or [])
+    nrow = rng.randint(2, 30)
+    keyvals = {}
+    if keycols:
+        outer = docgen.run_keys(rng, n, ["K" + x for x in "ABCDEFGH"], 1, max(2, nrow))
+        keyvals[keycols[0]] = outer
+        for lvl, kc in enumerate(keycols[1:], 1):
+            inner = []
+            i = 0
+            while i < n:
+                j = i
+                while j < n and outer[j] == outer[i]:
+                    j += 1
+                inner += docgen.run_keys(rng, j - i, [f"L{lvl}" + x for x in "pqrstu"], 1, max(1, nrow // 2))
+                i = j
+            keyvals[kc] = inner
+            outer = [a + "|" + b for a, b in zip(outer, inner)]
+
+    # column order: key columns first, last, or anywhere between the data columns
+    order = rng.choice(["keys_first", "keys_first", "mixed", "keys_last"])
+    if order == "keys_first" or not keycols:
+        all_cols = keycols + cols
+    elif order == "keys_last":
+        all_cols = cols + keycols
+    else:
+        all_cols = keycols + cols
+        rng.shuffle(all_cols)
+    ncols = len(all_cols)
+    removed = set(subline_by or [])
+    if page_by and (not new_page or pageby_row != "column"):
+        removed |= set(page_by)
+    displayed = [c for c in all_cols if c not in removed]
+    nd = len(displayed)
+
+    # table width and relative widths
+    page = dict(nrow=nrow)
+    W = 6.25
+    if rng.random() < 0.25:
+        W = rng.choice([4.5, 5.0, 7.0, 7.5])
+        page["col_width"] = W
+    wmode = rng.choice(["int", "int", "float", "displayed" if removed else "int", "equal"])
+    body = {}
+    if wmode == "equal":
+        rel_all = [1] * ncols
+        if rng.random() < 0.5:
+            body["col_rel_width"] = [rng.choice([1, 2, 0.5])] * ncols
+    elif wmode == "displayed":
+        rel_d = [rng.choice([1, 1, 2, 3, 4, 5]) for _ in range(nd)]
+        body["col_rel_width"] = rel_d            # one width per DISPLAYED column: used as it stands
+        rel_all = None
+    else:
+        pick = (lambda: rng.choice([1, 1, 2, 3, 4, 5])) if wmode == "int" else (lambda: round(rng.uniform(0.5, 4.0), 2))
+        rel_all = [pick() for _ in range(ncols)]
+        body["col_rel_width"] = rel_all          # one width per frame column: the removed columns' widths drop out
+    rel_disp = rel_d if rel_all is None else [rel_all[all_cols.index(c)] for c in displayed]
+    cw = [W * r / sum(rel_disp) for r in rel_disp]
+
+    # fonts and sizes: attribute vectors run over the FRAME's columns (rtflite slices them with the columns)
+    smode = rng.choice(["default", "default", "scalar", "col", "col", "cell" if n else "col"])
+    if smode == "scalar":
+        body["text_font_size"] = rng.choice(SIZES)
+    elif smode == "col":
+        body["text_font_size"] = [rng.choice(SIZES) for _ in range(ncols)]
+    elif smode == "cell":
+        body["text_font_size"] = [[rng.choice(SIZES) for _ in range(ncols)] for _ in range(n)]
+    fmode = rng.choice(["default", "default", "scalar", "col"])
+    if fmode == "scalar":
+        body["text_font"] = rng.randint(1, 10)
+    elif fmode == "col":
+        body["text_font"] = [rng.randint(1, 10) for _ in range(ncols)]
+
+    def fs(i, c):
+        ci = all_cols.index(c)
+        return (laygen.attr_at(body.get("text_font"), i, ci, 1), laygen.attr_at(body.get("text_font_size"), i, ci, 9))
+
+    # a long outer value of a key column that is shown as a heading (two heading lines, well inside the band)
+    def heading_text(sel, i):
+        return " | ".join(f"{c}: {keyvals[c][i]}" for c in sel if str(keyvals[c][i]) != "-----")
+
+    pb_hidden = bool(page_by) and not (new_page and pageby_row == "column")
+    cands = ([subline_by] if subline_by else []) + ([page_by] if pb_hidden else [])
+    if cands and n and rng.random() < 0.3:
+        sel = rng.choice(cands)
+        kc0 = sel[0]
+        v0 = rng.choice(sorted(set(keyvals[kc0])))
+        idx = [i for i in range(n) if keyvals[kc0][i] == v0]
+        long_v, ok = v0, False
+        for _ in range(80):
+            long_v += " " + rng.choice(_WORDS)
+            for i in idx:
+                keyvals[kc0][i] = long_v
+            ws = [measure(heading_text(sel, i)) / W for i in idx]
+            if min(ws) >= 1.3:
+                ok = max(ws) <= 1.7
+                break
+        if not ok:
+            for i in idx:
+                keyvals[kc0][i] = v0
+
+    # values of key columns that stay in the table are cells like any other: pad each value (the same way in every
+    # row, so the groups stay what they are) until it is well inside a band of its column in every row it stands in
+    for kc in keycols:
+        if kc in removed:
+            continue
+        k = displayed.index(kc)
+        mapping = {}
+        for v in sorted(set(keyvals[kc])):
+            rows_v = [i for i in range(n) if keyvals[kc][i] == v]
+            v2 = v
+            for _ in range(60):
+                if all(well_inside(laygen.measure(v2, *fs(i, kc)) / cw[k]) for i in rows_v):
+                    break
+                v2 += "."
+            else:
+                return None
+            mapping[v] = v2
+        if len(set(mapping.values())) != len(mapping):
+            return None
+        keyvals[kc] = [mapping[v] for v in keyvals[kc]]
+
+    # data cells
+    rows, lines = [], []
+    long_left_of_kept = False
+    for i in range(n):
+        row = {kc: keyvals[kc][i] for kc in keycols}
+        tall = rng.random() < 0.45
+        for j, c in enumerate(cols):
+            tag = f"r{i}c{j}"
+            k = None
+            if tall and rng.random() < 0.45:
+                k = rng.choice([1, 1, 2, 2, 3])
+            f, s = fs(i, c)
+            t = place(rng, tag, cw[displayed.index(c)], f, s, k, fill="wide" if rng.random() < 0.2 else "words")
+            if t is None:
+                return None
+            row[c] = t
+        ln = 1
+        for k, c in enumerate(displayed):
+            f, s = fs(i, c)
+            qv = laygen.measure(str(row[c]), f, s) / cw[k]
+            if not well_inside(qv):
+                return None
+            ln = max(ln, int(qv) + 1)
+        lines.append(ln)
+        rows.append([row[c] for c in all_cols])
+
+    hdr_mode = rng.choice(["explicit", "explicit2", "none"])
+    if hdr_mode == "none":
+        headers = []
+    else:
+        bottom = dict(text=[f"H{j}" for j in range(nd)])
+        if rng.random() < 0.5:
+            bottom["col_rel_width"] = list(rel_disp)
+        headers = [bottom] if hdr_mode == "explicit" else [dict(text=["TOP"], col_rel_width=[1]), bottom]
+    fn = rng.random() < 0.5
+    src = rng.random() < 0.4
+    if page_by:
+        body.update(page_by=page_by, new_page=new_page, pageby_row=pageby_row)
+    if subline_by:
+        body["subline_by"] = subline_by
+    if rng.random() < 0.5:
+        body["pageby_header"] = rng.random() < 0.5
+    spec = dict(kind="table", df=dict(cols=all_cols, rows=rows), page=page, headers=headers, body=body,
+                footnote=dict(text="FOOTNOTE", as_table=rng.random() < 0.6) if fn else None,
+                source=dict(text="SOURCE", as_table=rng.random() < 0.5) if src else None)
+    additional = (1 if subline_by else 0) + len(headers) + (1 if fn else 0) + (1 if src else 0)
+
+    def chg(colsel):
+        return [True if i == 0 else any(str(keyvals[c][i]) != str(keyvals[c][i - 1]) for c in colsel) for i in range(n)]
+
+    pch = chg(page_by) if page_by else [False] * n
+    sch = chg(subline_by) if subline_by else [False] * n
+
+    def hrows(sel, i):
+        txt = heading_text(sel, i)
+        if not txt:
+            return 0
+        qh = measure(txt) / W
+        if not well_inside(qh):
+            raise _Ambiguous
+        return max(1, int(qh) + 1)
+
+    meta = []
+    try:
+        for i in range(n):
+            t = (lines[i] + (hrows(page_by, i) if (page_by and pch[i]) else 0)
+                 + (hrows(subline_by, i) if (subline_by and sch[i]) else 0))
+            meta.append([t, bool(page_by and pch[i]), bool(subline_by and sch[i])])
+    except _Ambiguous:
+        return None
+    kept = [c for c in (page_by or []) if c not in removed]
+    shape = ["w:" + wmode, "size:" + smode, "font:" + fmode, "order:" + (order if keycols else "nokeys"),
+             "tablew:" + ("default" if W == 6.25 else "custom")]
+    if kept:
+        shape.append("pageby_col_kept")
+        if len(set(round(x, 6) for x in cw)) > 1:
+            shape.append("pageby_col_kept+unequal_widths")
+            if any(ln > 1 for ln in lines):
+                shape.append("pageby_col_kept+unequal_widths+tall_rows")
+    if removed and len(set(round(x, 6) for x in cw)) > 1:
+        shape.append("cols_removed+unequal_widths")
+    np_eff = True if subline_by else bool(new_page)
+    exp = dict(nrow=nrow, additional=additional, np=np_eff, rows=meta, strategy="w/" + label, shape=shape,
+               col_widths=[round(x, 6) for x in cw], data_lines=lines,
+               skeys=["|".join(keyvals[c][i] for c in subline_by) for i in range(n)] if subline_by else None,
+               pkeys=["|".join(keyvals[c][i] for c in page_by) for i in range(n)] if page_by else None)
+    return dict(spec=spec, exp=exp)
+
+
+class _Ambiguous(Exception):
+    pass
+
+
+def gen_doc_w(seed, k, tier):
+    """general-geometry document number k of the seed's stream (deterministic; retried with fresh sub-streams while a
+    cell cannot be placed unambiguously, e.g. a column too narrow for its font)"""
+    for attempt in range(25):
+        c = _gen_doc_w_once(sub_rng(seed, "c04docw", k, attempt))
+        if c is not None:
+            c["exp"]["attempts"] = attempt + 1
+            return c
+    c = gen_doc(sub_rng(seed, "c04docw-fallback", k), tier)
+    c["exp"]["shape"] = ["fallback_equal_widths"]
+    return c
+
+
 _TAG = re.compile(r"^\s*r(\d+)c(\d+)")
 
 
@@ -360,7 +669,12 @@ def judge_doc(res, case, ob, drv):
     if n:
         # (a)(b)(c) — Lean-defined oracle on the observed pagination
         if drv["viol"]:
-            res.fail(case, f"observed pagination {pages} violates {drv['viol'][:4]} (model: {drv['pages']})")
+            geo = ""
+            if exp.get("col_widths"):
+                geo = (f"; {exp['strategy']}, nrow {exp['nrow']}, {exp['additional']} reserved; displayed column widths "
+                       f"{[round(x, 3) for x in exp['col_widths']]} in; data lines of the rows, every cell at its own "
+                       f"column's width / font / size: {exp['data_lines']}")
+            res.fail(case, f"observed pagination {pages} violates {drv['viol'][:4]} (model: {drv['pages']}){geo}")
             return
         if drv["pages"] != pages:
             res.disagree(case, f"model pages {drv['pages']} != observed {pages}")
@@ -384,16 +698,7 @@ def judge_doc(res, case, ob, drv):
         res.fail(case, f"prefix table failed to encode: {ob['prefix_error']}")
 
 
-def run_docs(res, rng, tier, corpus=()):
-    ndocs = 260 if tier == "quick" else 3000
-    cases = list(corpus)
-    for k in range(ndocs):
-        c = gen_doc(sub_rng(res.seed, "c04doc", k), tier)
-        n = len(c["exp"]["rows"])
-        if n >= 2 and k % 3 == 0:
-            c["prefix_m"] = sub_rng(res.seed, "c04pm", k).randint(1, n - 1)
-        cases.append(c)
-    obs = common.pool_map(_doc_worker, cases, chunksize=4)
+def _judge_all(res, cases, obs):
     reqs = [dict(op="assign_pages", nrow=c["exp"]["nrow"], add=c["exp"]["additional"], np=c["exp"]["np"],
                  rows=c["exp"]["rows"],
                  observed=[p or 0 for p in (o.get("pages") or [])] if o["status"] == "ok" else [])
@@ -406,15 +711,48 @@ def run_docs(res, rng, tier, corpus=()):
             nt = ("d", c["exp"]["strategy"], c["exp"]["nrow"], c["exp"]["additional"], tuple(pages))
         res.case(dict(level="doc", spec=c["spec"], exp=c["exp"], prefix_m=c.get("prefix_m")), nt)
         res.count("doc:" + c["exp"]["strategy"])
+        for lab in c["exp"].get("shape") or ():
+            res.count("docw_shape:" + lab)
         res.count(f"doc_pages:{min(9, max([0] + [p or 0 for p in pages]))}")
         res.corr_checked += 1
         judge_doc(res, dict(level="doc", spec=c["spec"], exp=c["exp"], prefix_m=c.get("prefix_m")), o, d)
+
+
+def run_docs(res, rng, tier, corpus=()):
+    ndocs = 260 if tier == "quick" else 3000
+    cases = list(corpus)
+    for k in range(ndocs):
+        c = gen_doc(sub_rng(res.seed, "c04doc", k), tier)
+        n = len(c["exp"]["rows"])
+        if n >= 2 and k % 3 == 0:
+            c["prefix_m"] = sub_rng(res.seed, "c04pm", k).randint(1, n - 1)
+        cases.append(c)
+    obs = common.pool_map(_doc_worker, cases, chunksize=4)
+    _judge_all(res, cases, obs)
+
+
+def _docw_worker(arg):
+    """generate (in the worker: every placement measures with the real get_string_width) and observe"""
+    seed, k, tier = arg
+    c = gen_doc_w(seed, k, tier)
+    n = len(c["exp"]["rows"])
+    if n >= 2 and k % 3 == 0:
+        c["prefix_m"] = sub_rng(seed, "c04pmw", k).randint(1, n - 1)
+    return c, _doc_worker(c)
+
+
+def run_docs_w(res, tier):
+    """tables of general geometry: own width / font / size per column, key columns anywhere, every grouping option"""
+    ndocs = 280 if tier == "quick" else 3000
+    out = common.pool_map(_docw_worker, [(res.seed, k, tier) for k in range(ndocs)], chunksize=2)
+    _judge_all(res, [c for c, _ in out], [o for _, o in out])
 
 
 def run(res: common.Result, build) -> int:
     rng = sub_rng(res.seed, "c04")
     run_unit(res, rng, res.tier)
     run_docs(res, rng, res.tier)
+    run_docs_w(res, res.tier)
     if res.failures or res.disagreements or not build["proof_ok"]:
         pass  # intensified search would go here; the streams above already cover the small space exhaustively
     return common.finish(
